@@ -538,5 +538,54 @@ def rule_guard(ctx):
     return res.finish(6)
 
 
+def rule_regex(ctx):
+    """serde_regex serialises `Regex::as_str()` and recompiles it with `Regex::new`: the round trip is exact only for
+    expressions that are determined by their text.  Options set through `RegexBuilder` (case_insensitive, multi_line,
+    dot_matches_new_line, swap_greed, ignore_whitespace, unicode, ...) are not part of the text and are lost."""
+    res = RuleResult("R-C19-regex", "every compiled regex that can reach a serialised field is determined by its pattern text: no RegexBuilder option is set in crates with a serde_regex field")
+    F = ctx.facts("serde")
+    if F is None:
+        return res.finish(0)
+    crates = set()
+    for c in F.crates.values():
+        for a in c.adts:
+            for v in a["variants"]:
+                for f in v["fields"]:
+                    if "serde_regex" in (f.get("ty") or "") or "regex::Regex" in (f.get("ty") or ""):
+                        crates.add(c.name)
+    if not crates:
+        res.missing_anchor("a field of type serde_regex::Serde<Regex>")
+        return res.finish(1)
+    n_new = 0
+    for fn in F.all_fns():
+        if fn["d"]["krate"] not in crates:
+            continue
+        c = fn["crate"]
+        for n in walk(fn["body"]):
+            d = None
+            if n.get("k") == "Call":
+                f = strip(n["f"])
+                d = c.dfn(f.get("def")) if f.get("k") == "Path" else None
+            elif n.get("k") == "MethodCall":
+                d = c.dfn(n.get("def"))
+            if not d or d.get("krate") != "regex":
+                continue
+            path = d.get("path") or ""
+            if "RegexBuilder" in path or "RegexSetBuilder" in path:
+                if d["name"] in ("new", "build"):
+                    n_new += 1 if d["name"] == "build" else 0
+                    continue
+                res.instance("%s : RegexBuilder::%s" % (fn_key(fn), d["name"]))
+                res.violate("%s : regex-option:%s" % (fn_key(fn), d["name"]), "`RegexBuilder::%s` sets an option that is not part of the pattern text; the serialised form is `Regex::as_str()` recompiled with `Regex::new`, so the restored expression matches differently from the one that was fitted with" % d["name"], fn_loc(fn, n["ln"]))
+            elif d["name"] == "new" and path.endswith("Regex::new"):
+                n_new += 1
+    res.instance("crates with a serialised regex: %s; %d Regex::new(text) constructions" % (sorted(crates), n_new))
+    if n_new:
+        res.ok()
+    else:
+        res.undecided("regex-constructor", "no Regex::new construction found in %s (the rule would pass vacuously)" % sorted(crates), "algorithms/linfa-preprocessing/src/countgrams/hyperparams.rs")
+    return res.finish(1)
+
+
 def rules(tier):
-    return [rule_build, rule_both, rule_struct, rule_types, rule_guard, rule_witness]
+    return [rule_build, rule_both, rule_struct, rule_types, rule_guard, rule_witness, rule_regex]
